@@ -474,6 +474,80 @@ def spaces(tier, variant, seed):
     sp.append(Space("lifecycle_sequences", list(range(len(LOPS))), lc_cases, lc_one,
                     "every sequence of %d lifecycle operations (init, init2, init_set*, inits/clears, mpq/mpf init and parse incl. rejected strings, set_prec, randstate init/copy/seed, allocated strings, a big computation) then clear: allocator contract and zero blocks held" % (2 if quick else 3)))
 
+    # ---------------- raw limb access protocol, read-only initialisation, mpz_array_init ----------------
+    f_lwrite = lib.fn("mpz_limbs_write", c_void_p, P, c_long)
+    f_lread = lib.fn("mpz_limbs_read", c_void_p, P)
+    f_roinit = lib.fn("mpz_roinit_n", c_void_p, P, c_void_p, c_long)
+    f_getlimbn = lib.fn("mpz_getlimbn", c_ulong, P, c_long)
+    f_size = lib.fn("mpz_size", c_size_t, P)
+    f_add = lib.fn("mpz_add", None, P, P, P)
+    LIMBV = [0, 1, al.M, al.M << 64, (1 << 128) + 1, al.PAT(5)["dense"], 1 << 320, al.ones(7), (al.ones(3) << 192)]
+
+    def lb_cases(blk):
+        i = blk
+        for n in (1, 2, 3, 5, 8, 12):
+            for neg in (0, 1):
+                for start_alloc in (1, 4, 20):
+                    yield (i, n, neg, start_alloc)
+
+    def lb_one(case, R):
+        i, n, neg, start_alloc = case
+        v = LIMBV[i] & al.ones(n)
+        e = env()
+        z, w = e["Z"][0], e["Z"][1]
+        before = lib.live_blocks()
+        z.set(-99, alloc=start_alloc)
+        # write protocol: ask for n limbs, store them, finish with the signed size
+        p_ = f_lwrite(z.p, n)
+        if z.s.alloc < n or S.v_block_size(p_) != z.s.alloc * 8:
+            R.fail("mpz_limbs_write", "asked for %d limbs from alloc %d: alloc field %d, block %d bytes" % (n, start_alloc, z.s.alloc, S.v_block_size(p_)))
+        ctypes.memmove(p_, v.to_bytes(8 * n, "little"), 8 * n)
+        vn = al.nl(v)
+        f_lfin(z.p, -n if neg else n)
+        ev = -v if neg else v
+        if z.get() != ev or z.wf():
+            R.fail("mpz_limbs_finish", "n=%d value %x neg %d: object holds %x (%s)" % (n, v, neg, z.get(), z.wf()))
+        # modify protocol keeps the old magnitude and may grow
+        p2 = f_lmod(z.p, n + 3)
+        if int.from_bytes(string_at(p2, 8 * vn), "little") != v if vn else False:
+            R.fail("mpz_limbs_modify", "old limbs not preserved when growing to %d" % (n + 3))
+        if z.s.alloc < n + 3:
+            R.fail("mpz_limbs_modify", "alloc %d < %d requested" % (z.s.alloc, n + 3))
+        f_lfin(z.p, -vn if neg else vn)
+        if z.get() != ev or z.wf():
+            R.fail("mpz_limbs_modify", "value changed by modify/finish: %x" % z.get())
+        # read access, getlimbn, size
+        pr = f_lread(z.p)
+        if vn and int.from_bytes(string_at(pr, 8 * vn), "little") != v:
+            R.fail("mpz_limbs_read", "pointer does not show the value")
+        if f_size(z.p) != vn:
+            R.fail("mpz_size", "%d expected %d" % (f_size(z.p), vn))
+        for k in (0, vn - 1, vn, vn + 5, -1):
+            ex = (v >> (64 * k)) & al.M if 0 <= k < vn else 0
+            if f_getlimbn(z.p, k) != ex:
+                R.fail("mpz_getlimbn", "limb %d of %x: %x expected %x" % (k, v, f_getlimbn(z.p, k), ex))
+        # read-only view over caller memory (size given un-normalised: high zero limbs allowed)
+        arr = (ctypes.c_uint64 * (n + 1))(*[(v >> (64 * k)) & al.M for k in range(n)], 0)
+        ro = lib.MPZ()
+        r = f_roinit(addressof(ro), addressof(arr), -n if neg else n)
+        if r != addressof(ro) or lib.zget(addressof(ro)) != ev:
+            R.fail("mpz_roinit_n", "n=%d value %x: view holds %x" % (n, v, lib.zget(addressof(ro))))
+        top = abs(ro.size)
+        if top and arr[top - 1] == 0:
+            R.fail("mpz_roinit_n", "size %d not normalised" % ro.size)
+        w.set(5)
+        f_add(w.p, addressof(ro), w.p)
+        if w.get() != ev + 5 or bytes(arr)[:8 * n] != v.to_bytes(8 * n, "little"):
+            R.fail("mpz_roinit_n", "using the view as an input gave %x or modified the caller's limbs" % w.get())
+        if lib.live_blocks() != before or lib.alloc_errors() or S.v_check_guards():
+            R.fail("limbs protocol", "blocks %d -> %d, %s" % (before, lib.live_blocks(), lib.alloc_msg()))
+            S.v_reset_errors()
+        R.count("states", 4)
+        return (i, n, neg, start_alloc)
+
+    sp.append(Space("limbs_protocol", list(range(len(LIMBV))), lb_cases, lb_one,
+                    "mpz_limbs_write/finish, mpz_limbs_modify (growing), mpz_limbs_read, mpz_getlimbn, mpz_size, mpz_roinit_n (un-normalised size, used as an input): values, allocation field == block size, no block lost"))
+
     f_inp_raw = lib.fn("mpz_inp_raw", c_size_t, P, c_void_p)
     f_inp_str = lib.fn("mpz_inp_str", c_size_t, P, c_void_p, c_int)
     f_qinp = lib.fn("mpq_inp_str", c_size_t, P, c_void_p, c_int)
